@@ -247,7 +247,7 @@ func (s *Server) publishDiagnostics(ctx context.Context, docURI protocol.Documen
 		return
 	}
 	resolved, loadErrors := s.loader.LoadFromContent(path, content)
-	s.resolved.Store(docURI, resolved)
+	s.resolved.Store(docURI, &resolvedEntry{content: content, journal: resolved})
 
 	diagnostics := s.analyze(content)
 
@@ -434,13 +434,31 @@ func uriToPath(docURI protocol.DocumentURI) string {
 	return filepath.Clean(path)
 }
 
+// resolvedEntry is the include tree of a document together with the content
+// it was resolved from, so that a tree computed from a superseded version of
+// the document is never used to answer a request.
+type resolvedEntry struct {
+	content string
+	journal *include.ResolvedJournal
+}
+
 func (s *Server) GetResolved(docURI protocol.DocumentURI) *include.ResolvedJournal {
+	doc, open := s.GetDocument(docURI)
 	if r, ok := s.resolved.Load(docURI); ok {
-		if resolved, ok := r.(*include.ResolvedJournal); ok {
-			return resolved
+		if entry, ok := r.(*resolvedEntry); ok && (!open || entry.content == doc) {
+			return entry.journal
 		}
 	}
-	return nil
+	if !open {
+		return nil
+	}
+	path := uriToPath(docURI)
+	if path == "" {
+		return nil
+	}
+	resolved, _ := s.loader.LoadFromContent(path, doc)
+	s.resolved.Store(docURI, &resolvedEntry{content: doc, journal: resolved})
+	return resolved
 }
 
 func (s *Server) getWorkspaceResolved(docURI protocol.DocumentURI) *include.ResolvedJournal {
